@@ -111,7 +111,14 @@ pub fn run_plan_realfs(plan: &SimPlan) -> PlanResult {
                 }
                 let mut before = BTreeMap::new();
                 collect(std::path::Path::new(&root), &root, &mut before);
-                let reuse = tp.reuse.get(pos).copied().unwrap_or(false) && server.is_some();
+                // The server object is an input the embedding host passes in:
+                // it may legitimately remember what it read for as long as it
+                // lives. It is therefore only reused when nothing on disk
+                // changed since it last looked (the same job again); process-
+                // wide state (statics, thread-locals) is still exercised by
+                // every later assembly, with a fresh server object.
+                let same_as_prev = pos > 0 && plan.jobs[tp.jobs[pos - 1]].disk == job.disk;
+                let reuse = tp.reuse.get(pos).copied().unwrap_or(false) && server.is_some() && same_as_prev;
                 let mut fs = match (reuse, server.take()) {
                     (true, Some(s)) => s,
                     _ => {
